@@ -19,7 +19,29 @@ ASSUMPTIONS = [
 ]
 
 
+def _dec_cast(v):
+    """What the implicit decimal() cast of an untyped value must give (Python's Decimal(x), NULL when not convertible)."""
+    if v is None:
+        return None
+    try:
+        return D(v)
+    except (ValueError, TypeError, decimal.InvalidOperation):
+        return None
+
+
+def _date_cast(v):
+    if isinstance(v, datetime.date):
+        return v
+    if isinstance(v, str):
+        try:
+            return datetime.datetime.strptime(v, '%Y-%m-%d').date()
+        except ValueError:
+            return None
+    return None
+
+
 def gen_case(rng, depth, cols=None, rows=None, allow_from=True):
+    own_table = cols is None
     if cols is None:
         ncols = rng.randint(2, 6)
         types = [rng.choice(exprgen.ALL_TYPES) for _ in range(ncols)]
@@ -28,7 +50,18 @@ def gen_case(rng, depth, cols=None, rows=None, allow_from=True):
         null_p = rng.choice([0.0, 0.15, 0.3, 0.5])
         nrows = rng.choice([0, 1, 2, 3, 5, 8, 12])
         rows = [tuple(values.gen_value(rng, PY[t], null_p) for _, t in cols) for _ in range(nrows)]
-    g = exprgen.Gen(rng, cols, max_depth=depth)
+    obj = None
+    model_rows = None
+    if own_table and rng.random() < 0.35:
+        # one untyped column: values of mixed Python types; the model sees two shadow columns decimal(o) and date(o)
+        pool = [None, 0, 1, 2, -3, D('2.5'), D('0.75'), D('-1.5'), D('10'), '2.5', 'abc', '', True, datetime.date(2020, 1, 2), '2020-02-29']
+        ovals = [rng.choice(pool) for _ in rows]
+        n0 = len(cols)
+        cols = cols + [('o', 'object')]
+        rows = [r + (v,) for r, v in zip(rows, ovals)]
+        model_rows = [r + (_dec_cast(v), _date_cast(v)) for r, v in zip(rows, ovals)]
+        obj = {'o': (n0 + 1, n0 + 2)}
+    g = exprgen.Gen(rng, cols, max_depth=depth, obj=obj)
     targets = [g.expr(rng.choice(exprgen.ALL_TYPES)) for _ in range(rng.randint(1, 3))]
     where = None
     mode = rng.random()
@@ -37,7 +70,7 @@ def gen_case(rng, depth, cols=None, rows=None, allow_from=True):
     frm = None
     if allow_from and rng.random() < 0.2:
         frm = g.expr(T_BOOL)
-    return {'cols': cols, 'rows': rows, 'targets': [(t.text, t.coq) for t in targets], 'types': [t.type for t in targets],
+    return {'cols': cols, 'rows': rows, 'model_rows': model_rows, 'targets': [(t.text, t.coq) for t in targets], 'types': [t.type for t in targets],
             'where': (where.text, where.coq) if where else None, 'from': (frm.text, frm.coq) if frm else None,
             'ops': sorted(set(sum([list(t.ops) for t in targets] + [list(where.ops) if where else []]
                                   + [list(frm.ops) if frm else []], []))),
@@ -57,7 +90,7 @@ def statement(c):
 
 
 def run_impl(c):
-    t = impl.make_table('t', [(n, PY[ty]) for n, ty in c['cols']], c['rows'])
+    t = impl.make_table('t', [(n, object if ty == 'object' else PY[ty]) for n, ty in c['cols']], c['rows'])
     t.update = lambda **kw: t
     conn = impl.connection({'t': t, 'postings': t})
     try:
@@ -76,7 +109,7 @@ def model_expr(c):
         w = f'(Some {c["where"][1]})'
     else:
         w = 'None'
-    return f'exec_out {query_coq(c, w)} {values.rows_to_coq(c["rows"])}'
+    return f'exec_out {query_coq(c, w)} {values.rows_to_coq(c.get("model_rows") or c["rows"])}'
 
 
 def where_coq(c):
@@ -194,9 +227,13 @@ def null_strictness_sweep():
 
 
 def shrink(c):
-    def with_rows(rows):
-        d = dict(c)
-        d['rows'] = rows
+    base = c
+
+    def with_rows(idxs):
+        d = dict(base)
+        d['rows'] = [base['rows'][i] for i in idxs]
+        if base.get('model_rows'):
+            d['model_rows'] = [base['model_rows'][i] for i in idxs]
         return d
 
     def fails(cands):
@@ -204,7 +241,7 @@ def shrink(c):
         ms = model_many(cs, tag='c01s')
         return [run_impl(x) != m for x, m in zip(cs, ms)]
     if len(c['rows']) >= 2:
-        c = with_rows(ddmin_batch(c['rows'], fails))
+        c = with_rows(ddmin_batch(list(range(len(c['rows']))), fails))
     if len(c['targets']) >= 2:
         def with_t(ts):
             d = dict(c)
